@@ -331,6 +331,21 @@ class Program:
             raise AnalysisError(f'class {mod.name}.{name} vanished')
         return mod.classes[name]
 
+    def inferred_return_type(self, fi: 'FuncInfo') -> tuple:
+        """Return type of an unannotated function: the union of the types of its return expressions."""
+        cache = self.__dict__.setdefault('_ret_cache', {})
+        if fi.fq in cache:
+            return cache[fi.fq]
+        cache[fi.fq] = ANY            # recursion guard
+        rets = [n for n in iter_own_nodes(fi.node) if isinstance(n, ast.Return)]
+        if not rets or any(r.value is None for r in rets):
+            t = ANY if rets else NONE
+        else:
+            env = TypeEnv(self, fi)
+            t = union([env.type_of(r.value) for r in rets])
+        cache[fi.fq] = t
+        return t
+
     def all_functions(self) -> List[FuncInfo]:
         return list(self.functions.values())
 
@@ -571,6 +586,11 @@ class TypeEnv:
                 self._assign_sites.setdefault(n.name, []).append(('exc', n.type))
             elif isinstance(n, ast.NamedExpr):
                 self._bind_target(n.target, ('expr', n.value))
+            elif isinstance(n, ast.Lambda):
+                la = n.args
+                for a_ in list(la.posonlyargs) + list(la.args) + list(la.kwonlyargs) + \
+                        [x for x in (la.vararg, la.kwarg) if x is not None]:
+                    self._assign_sites.setdefault(a_.arg, []).append(('lambda', n))
 
         walk(f.node)
 
@@ -655,7 +675,13 @@ class TypeEnv:
                 return ('type', sym.fq)
             if isinstance(sym, FuncInfo):
                 return ('func', sym)
+            if isinstance(sym, Module):
+                return ('module', sym.name)
             if isinstance(sym, tuple) and sym[0] == 'const':
+                if isinstance(sym[1], ast.Call) and len(sym) > 2:
+                    fs = prog.resolve_expr_symbol(sym[2], sym[1].func)
+                    if isinstance(fs, tuple) and fs[0] == 'ext' and fs[1] in EXT_OBJECT_FACTORIES:
+                        return ('extobj', fs[1])
                 return TypeEnv._const_type(sym[1])
             return ANY
         if isinstance(e, ast.Attribute):
@@ -799,11 +825,16 @@ class TypeEnv:
                 return t_list(self.elem_type(self.type_of(e.args[1])))
             if f.id == 'deepcopy' or f.id == 'copy':
                 return self.type_of(e.args[0]) if e.args else ANY
+        fsym = prog.resolve_expr_symbol(self.mod, f) if isinstance(f, (ast.Name, ast.Attribute)) else None
+        if isinstance(fsym, tuple) and fsym[0] == 'ext' and fsym[1] in EXT_OBJECT_FACTORIES:
+            return ('extobj', fsym[1])
         ft = self.type_of(f)
         if ft[0] == 'type':
             return t_cls(ft[1])
         if ft[0] == 'func':
             fi: FuncInfo = ft[1]
+            if fi.node.returns is None:
+                return prog.inferred_return_type(fi)
             return prog.ann_to_type(fi.module, fi.node.returns, fi.cls)
         if ft[0] == 'strmethod':
             m = ft[1]
@@ -873,6 +904,19 @@ class TypeEnv:
             if sym is not None:
                 return self._sym_callees(sym)
             bt = strip_opt(self.type_of(f.value))
+            mods = [bt] if bt[0] == 'module' else [strip_opt(t) for t in bt[1]] if bt[0] == 'union' else []
+            if mods and all(t[0] == 'module' for t in mods):
+                # e.g. a loop variable over a list of package modules
+                for t in mods:
+                    fn_ = prog.modules[t[1]].functions.get(f.attr) if t[1] in prog.modules else None
+                    if fn_ is not None:
+                        out.append(fn_)
+                if len(out) == len(mods):
+                    return out
+                out = []
+            if bt[0] == 'extobj':
+                # a method of an object made by the standard library (compiled pattern, hash object, lock ...)
+                return [('ext', f'{bt[1]}().{f.attr}')]
             if bt[0] == 'union':
                 for t in bt[1]:
                     t = strip_opt(t)
@@ -922,6 +966,10 @@ class TypeEnv:
                                 out.append(s)
         return out
 
+
+# standard-library calls whose result is an opaque library object (its methods are library code, never package methods)
+EXT_OBJECT_FACTORIES = {'re.compile', 'logging.getLogger', 'hashlib.md5', 'hashlib.sha1', 'hashlib.sha256',
+                        'threading.Lock', 'threading.RLock'}
 
 BUILTIN_METHOD_NAMES = {
     # str
